@@ -581,6 +581,36 @@ pub fn run(reg: &dyn Registry, ctx: &Ctx) -> Outcome {
         }
     }
 
+    // duplicates made by plain copy: only possible if JitterRng<F> is `Copy` for a `Copy` timer (it is not,
+    // on the unchanged tree; the probe is decided at compile time for the zero-sized fn-item timers). A
+    // copy is a duplicate like a clone: its first output must come from a fresh collection.
+    {
+        let mut probes = 0u64;
+        for rounds in [1u8, 3] {
+            for first in [Op::U32, Op::Fill(3), Op::U64] {
+                let readings = jitter_env::benign_readings(ctx.seed ^ 0x16C0 ^ rounds as u64, rounds, 8, 8);
+                let mut g = reg.jitter_zst(0, TimerScript::new(readings.clone()));
+                g.jitter().unwrap().set_rounds(rounds);
+                let o0 = apply(&mut g, &first);
+                let Some(mut d) = g.bitwise_copy_box() else { continue };
+                probes += 1;
+                let pending_half = g.jitter().unwrap().half_pending();
+                let pool = g.jitter().unwrap().pool();
+                let before = d.jitter().unwrap().timer_consumed();
+                let o = apply(&mut d, &Op::U32);
+                let used = d.jitter().unwrap().timer_consumed() - before;
+                if used == 0 {
+                    ctx.violation(
+                        "C16:copy-output",
+                        &format!("rounds {}: after {} ({}), a plain copy of the generator (JitterRng is Copy for this timer type) returned {} from next_u32 without reading the timer{}", rounds, first.short(), o0.to_json(), o.to_json(), if pending_half && o == Obs::U32((pool >> 32) as u32) { " - the half its original still holds" } else { "" }),
+                        json!({"kind":"note","rounds":rounds,"first":first.short()}),
+                    );
+                }
+            }
+        }
+        ctx.set("copy_duplicates_probed", probes);
+    }
+
     // shared call counter (the closure's own clone semantics): the clone's first output must still
     // read the timer at least `rounds` times, whatever the original holds
     for rounds in [1u8, 3, 64] {
